@@ -16,8 +16,6 @@ theorem el_valid {T : String} (hT : PlainType T) {n : String} {kids : List Xml} 
 
 /-! ### points -/
 
-def PtOk (q : Pt) : Prop := Fin q.x ∧ Fin q.y ∧ ∀ z, q.z = some z → Fin z
-
 theorem pt_point : PlainType "point" := by unfold PlainType; decide
 
 theorem valid_pointNode (tag : String) {x y : Str} {z : Option Str} (hx : isDecimal x = true) (hy : isDecimal y = true)
@@ -45,11 +43,6 @@ theorem valid_pt (p : Nat) (tag : String) {q : Pt} (h : PtOk q) : validNode sche
 theorem name_pt (p : Nat) (tag : String) (q : Pt) : (ptNode p tag q).name = tag := rfl
 
 /-! ### shapes -/
-
-def Shape1Ok : Shape1 → Prop
-  | .rect l w o cx cy => PosNum l ∧ PosNum w ∧ Fin o ∧ Fin cx ∧ Fin cy
-  | .circ r cx cy => PosNum r ∧ Fin cx ∧ Fin cy
-  | .poly vs => 3 ≤ vs.length ∧ ∀ v ∈ vs, Fin v.1 ∧ Fin v.2
 
 theorem pt_rectangle : PlainType "rectangle" := by unfold PlainType; decide
 theorem pt_circle : PlainType "circle" := by unfold PlainType; decide
@@ -148,8 +141,6 @@ theorem valid_shape1 (p : Nat) (dyn : Bool) {s : Shape1} (h : Shape1Ok s) :
       | cons _ _ => simp)
     simpa [shape1Node, el, Shape1.tag] using this
 
-def ShapeOk (s : List Shape1) : Prop := s ≠ [] ∧ ∀ x ∈ s, Shape1Ok x
-
 theorem pt_shape : PlainType "shape" := by unfold PlainType; decide
 
 theorem shape_tag_type (s : Shape1) :
@@ -170,12 +161,7 @@ theorem valid_shape (p : Nat) (dyn : Bool) {s : List Shape1} (h : ShapeOk s) :
     | nil => exact absurd rfl h.1
     | cons _ _ => simp [shapeNodes]
 
-
 /-! ### values and times -/
-
-def ValOk : Val → Prop
-  | .exact x => Fin x
-  | .interval a b => Fin a ∧ Fin b
 
 theorem pt_dei : PlainType "decimalExactOrInterval" := by unfold PlainType; decide
 theorem pt_di : PlainType "decimalInterval" := by unfold PlainType; decide
@@ -212,11 +198,6 @@ theorem valid_val_exact (p : Nat) (n : String) {x : Num} (h : Fin x) :
   have hm : matchGroup (schema.content "decimalExact") ["exact"] = some ["xs:decimal"] := by decide
   rw [el_valid pt_de (ts := ["xs:decimal"]) (by simpa [valKids, leaf, Xml.name] using hm)]
   simp only [valKids, validKids, leaf_coord _ h p, Bool.and_self]
-
-/-- time of a trajectory state, a signal-series state or an occupancy: a positive step, or an interval -/
-def TimeOk : TimeV → Prop
-  | .exact t => 1 ≤ t
-  | .interval a b => 0 ≤ a ∧ 1 ≤ b
 
 theorem valid_time (n : String) {t : TimeV} (h : TimeOk t) :
     validNode schema "integerExactOrIntervalGreaterZero" (el n (timeKids t)) = true := by
@@ -267,12 +248,6 @@ theorem fam_refs {T : String} (hT : schema.lookup T = some (.complex refDecl fal
   exact ⟨rfl, valid_ref hT n i⟩
 
 /-! ### positions -/
-
-/-- a position the schema can express: a point, a non-empty run of shapes of ONE kind, or a non-empty run of lanelet ids -/
-def PosOk : Pos → Prop
-  | .point q => PtOk q
-  | .shapes s => s ≠ [] ∧ ∃ t, ∀ x ∈ s, x.tag = t ∧ Shape1Ok x
-  | .lanelets ids => ids ≠ []
 
 theorem pt_position : PlainType "position" := by unfold PlainType; decide
 theorem pt_positionInterval : PlainType "positionInterval" := by unfold PlainType; decide
@@ -341,7 +316,6 @@ theorem valid_pos_exact (p : Nat) {q : Pt} (h : PtOk q) : validNode schema "posi
   rw [posNode, el_valid pt_positionExact (ts := ["point"]) (by simpa [ptNode, pointNode, Xml.name] using hm)]
   simp only [validKids, valid_pt p "point" h, Bool.and_self]
 
-
 /-! ### states (xs:all) -/
 
 theorem name_attrNode (p : Nat) (a : Attr) : (attrNode p a).name = a.name := by
@@ -393,20 +367,6 @@ theorem valid_state_gen {T : String} {es : List ElemP} (posT timeT valT : String
       simp only [h1, h2, Bool.false_or, beq_iff_eq] at hv
       rw [hty, hv]; exact h.2.2
 
-def stateEs (T : String) : List ElemP := elemsOf (schema.content T)
-
-/-- what all four state containers demand of the attribute list: pairwise different element names, all declared by the
-    container type, and the required ones present -/
-def StateShape (T : String) (req : List String) (st : List Attr) : Prop :=
-  (st.map Attr.name).Nodup ∧ (∀ a ∈ st, a.name ∈ (stateEs T).map (·.name)) ∧ (∀ r ∈ req, r ∈ st.map Attr.name)
-
-/-- a trajectory state: position (point / shapes), orientation etc. exact or interval, time ≥ 1 -/
-def StateOk (st : List Attr) : Prop :=
-  StateShape "state" ["position", "orientation", "time"] st ∧ ∀ a ∈ st, match a with
-    | .position q => PosOk q
-    | .time t => TimeOk t
-    | .value n v => xmlProp n ≠ "position" ∧ xmlProp n ≠ "time" ∧ ValOk v
-
 theorem valid_state (p : Nat) (tag : String) {st : List Attr} (h : StateOk st) :
     validNode schema "state" (stateNode p tag st) = true := by
   obtain ⟨⟨hnd, hdecl, hreq⟩, hattr⟩ := h
@@ -419,13 +379,6 @@ theorem valid_state (p : Nat) (tag : String) {st : List Attr} (h : StateOk st) :
   | time t => exact valid_time "time" this
   | value n v => exact ⟨this.1, this.2.1, valid_val p _ this.2.2⟩
 
-/-- the initial state of an obstacle: as a state, but at time step 0 -/
-def InitialStateOk (st : List Attr) : Prop :=
-  StateShape "initialState" ["position", "orientation", "time"] st ∧ ∀ a ∈ st, match a with
-    | .position q => PosOk q
-    | .time t => t = .exact 0
-    | .value n v => xmlProp n ≠ "position" ∧ xmlProp n ≠ "time" ∧ ValOk v
-
 theorem valid_initialState (p : Nat) (tag : String) {st : List Attr} (h : InitialStateOk st) :
     validNode schema "initialState" (stateNode p tag st) = true := by
   obtain ⟨⟨hnd, hdecl, hreq⟩, hattr⟩ := h
@@ -437,14 +390,6 @@ theorem valid_initialState (p : Nat) (tag : String) {st : List Attr} (h : Initia
   | position q => exact valid_pos p this
   | time t => simp only at this; subst this; exact valid_time_zero "time"
   | value n v => exact ⟨this.1, this.2.1, valid_val p _ this.2.2⟩
-
-/-- the initial state of a planning problem: an exact point, exact values, time step 0; velocity, orientation, yaw rate
-    and slip angle are required -/
-def PlanningInitialStateOk (st : List Attr) : Prop :=
-  StateShape "initialStateExact" ["position", "velocity", "orientation", "yawRate", "slipAngle", "time"] st ∧ ∀ a ∈ st, match a with
-    | .position q => ∃ pt, q = .point pt ∧ PtOk pt
-    | .time t => t = .exact 0
-    | .value n v => xmlProp n ≠ "position" ∧ xmlProp n ≠ "time" ∧ ∃ x, v = .exact x ∧ Fin x
 
 theorem valid_planningInitialState (p : Nat) (tag : String) {st : List Attr} (h : PlanningInitialStateOk st) :
     validNode schema "initialStateExact" (stateNode p tag st) = true := by
@@ -459,13 +404,6 @@ theorem valid_planningInitialState (p : Nat) (tag : String) {st : List Attr} (h 
   | time t => simp only at this; subst this; exact valid_time_zero "time"
   | value n v => obtain ⟨h1, h2, x, rfl, hx⟩ := this; exact ⟨h1, h2, valid_val_exact p _ hx⟩
 
-/-- a goal state: an interval time, optionally a position (shapes of one kind or lanelets) and interval orientation / velocity -/
-def GoalStateOk (st : List Attr) : Prop :=
-  StateShape "goalState" ["time"] st ∧ ∀ a ∈ st, match a with
-    | .position q => PosOk q ∧ ∀ pt, q ≠ .point pt
-    | .time t => ∃ a b, t = .interval a b ∧ 0 ≤ a ∧ 1 ≤ b
-    | .value n v => xmlProp n ≠ "position" ∧ xmlProp n ≠ "time" ∧ ∃ a b, v = .interval a b ∧ Fin a ∧ Fin b
-
 theorem valid_goalState (p : Nat) (tag : String) {st : List Attr} (h : GoalStateOk st) :
     validNode schema "goalState" (stateNode p tag st) = true := by
   obtain ⟨⟨hnd, hdecl, hreq⟩, hattr⟩ := h
@@ -479,7 +417,6 @@ theorem valid_goalState (p : Nat) (tag : String) {st : List Attr} (h : GoalState
   | value n v => obtain ⟨h1, h2, a, b, rfl, ha', hb'⟩ := this; exact ⟨h1, h2, valid_val_interval p _ ha' hb'⟩
 
 theorem name_stateNode (p : Nat) (tag : String) (st : List Attr) : (stateNode p tag st).name = tag := rfl
-
 
 /-! ### signal states (xs:all: time + any subset of the six flags) -/
 
